@@ -526,6 +526,7 @@ func (c *Ctx) tensorNew(dt *tensor.Dtype, opts []Value) *Shadow {
 	var shape []int
 	haveShape := false
 	var backing Value
+	fortran := false // tensor.AsFortran: the backing is in column-major order
 	var scalar Value
 	var d tensor.Dtype
 	haveD := false
@@ -543,6 +544,9 @@ func (c *Ctx) tensorNew(dt *tensor.Dtype, opts []Value) *Shadow {
 			haveShape = true
 		case "WithBacking":
 			backing = ov.Arg
+		case "AsFortran":
+			backing = ov.Arg
+			fortran = true
 		case "Of":
 			d = dtypeUniverse[ov.Arg.(DtypeV).Idx]
 			haveD = true
@@ -602,8 +606,13 @@ func (c *Ctx) tensorNew(dt *tensor.Dtype, opts []Value) *Shadow {
 			o1 = append(o1, tensor.WithShape(shape...))
 			o2 = append(o2, tensor.WithShape(shape...))
 		}
-		o1 = append(o1, tensor.WithBacking(idsBack))
-		o2 = append(o2, tensor.WithBacking(twinBack))
+		if fortran {
+			o1 = append(o1, tensor.AsFortran(idsBack))
+			o2 = append(o2, tensor.AsFortran(twinBack))
+		} else {
+			o1 = append(o1, tensor.WithBacking(idsBack))
+			o2 = append(o2, tensor.WithBacking(twinBack))
+		}
 		var t1, t2 *tensor.Dense
 		err := c.dual("New(WithBacking)", func() error { t1 = tensor.New(o1...); return nil }, func() error { t2 = tensor.New(o2...); return nil })
 		_ = err
@@ -659,6 +668,19 @@ func (c *Ctx) registerTensorIntrinsics(tab map[string]intrinsicFn) {
 	}
 	tab[P+"WithReuse"] = func(c *Ctx, fn *ssa.Function, a []Value) Value {
 		return OptV{Kind: "WithReuse", Arg: a[0]}
+	}
+	tab[P+"AsFortran"] = func(c *Ctx, fn *ssa.Function, a []Value) Value {
+		// func AsFortran(backing interface{}, argMask ...[]bool) ConsOpt
+		iv, ok := a[0].(IfaceV)
+		if !ok {
+			panic(c.abort("tensor.AsFortran(%T)", a[0]))
+		}
+		if len(a) > 1 {
+			if m, ok := a[1].(SliceV); ok && m.Len > 0 {
+				panic(c.abort("tensor.AsFortran with a mask"))
+			}
+		}
+		return OptV{Kind: "AsFortran", Arg: iv}
 	}
 	tab[P+"WithEngine"] = func(c *Ctx, fn *ssa.Function, a []Value) Value {
 		if iv, ok := a[0].(IfaceV); !ok || iv.T == nil || !strings.HasSuffix(typeString(iv.T), "tensor.StdEng") {
